@@ -459,6 +459,170 @@ Proof.
   apply negb_true_iff, Z.eqb_neq. apply Hdet; [exact Hrel|reflexivity].
 Qed.
 
+(* ---- completeness: an untouched stream is delivered completely ---- *)
+(* suite shapes that exist in cipher_suites.go: CBC block size 8 or 16, explicit IV = 0 or one block *)
+Definition cfg_ok (c : cfg) : bool :=
+  wf_cfg c && (c_mac c + c_expl c + c_ovh c <=? 2000) &&
+  (negb (c_kind c =? 1) || (((c_bs c =? 8) || (c_bs c =? 16)) && ((c_expl c =? 0) || (c_expl c =? c_bs c)))).
+
+Section Complete.
+  Variable B : Type.
+  Variable seal : Z -> Z -> Z -> list Z -> B.
+  Variable open : Z -> Z -> Z -> B -> option (list Z).
+  Variable c : cfg.
+  Hypothesis open_seal : forall s t v p, open s t v (seal s t v p) = Some p.
+  Hypothesis Hc : cfg_ok c = true.
+
+  Lemma wire_len_facts m : 0 <= m <= maxPlaintext ->
+    0 <= wire_len c m <= maxCiphertext /\
+    ((c_kind c =? 2) && (wire_len c m <? c_expl c) = false) /\
+    ((c_kind c =? 1) && (negb (wire_len c m mod c_bs c =? 0) ||
+                         (wire_len c m <? round_up (c_expl c + c_mac c + 1) (c_bs c))) = false).
+  Proof.
+    intro Hm. pose proof Hc as Hc'. unfold cfg_ok in Hc'. unfold maxPlaintext, maxCiphertext in *.
+    apply andb_true_iff in Hc'. destruct Hc' as [Hc' H]. apply andb_true_iff in Hc'. destruct Hc' as [Hwf Hsum].
+    unfold wf_cfg in Hwf.
+    repeat (apply andb_true_iff in Hwf; let W := fresh "W" in destruct Hwf as [Hwf W]).
+    repeat match goal with H : (_ <=? _) = true |- _ => apply Z.leb_le in H | H : (_ <? _) = true |- _ => apply Z.ltb_lt in H end.
+    unfold wire_len, round_up.
+    destruct (c_kind c =? 0) eqn:E0; [apply Z.eqb_eq in E0|apply Z.eqb_neq in E0].
+    { replace (c_kind c =? 2) with false by (symmetry; apply Z.eqb_neq; lia).
+      replace (c_kind c =? 1) with false by (symmetry; apply Z.eqb_neq; lia). simpl. split; [lia|auto]. }
+    destruct (c_kind c =? 1) eqn:E1; [apply Z.eqb_eq in E1|apply Z.eqb_neq in E1].
+    - replace (c_kind c =? 2) with false by (symmetry; apply Z.eqb_neq; lia). cbn [andb orb negb] in *.
+      apply andb_true_iff in H. destruct H as [Hb He].
+      assert (Hbs : c_bs c = 8 \/ c_bs c = 16).
+      { apply orb_true_iff in Hb. destruct Hb as [Hb|Hb]; apply Z.eqb_eq in Hb; auto. }
+      assert (Hex : c_expl c = 0 \/ c_expl c = c_bs c).
+      { apply orb_true_iff in He. destruct He as [He|He]; apply Z.eqb_eq in He; auto. }
+      split; [|split; [reflexivity|]].
+      + destruct Hbs as [Hbs|Hbs]; rewrite Hbs in *; destruct Hex as [Hex|Hex]; rewrite Hex in *;
+          pose proof (Z.mod_pos_bound (m + c_mac c + 1) 8 ltac:(lia));
+          pose proof (Z.mod_pos_bound (m + c_mac c + 1) 16 ltac:(lia));
+          pose proof (Z.mod_pos_bound (8 - (m + c_mac c + 1) mod 8) 8 ltac:(lia));
+          pose proof (Z.mod_pos_bound (16 - (m + c_mac c + 1) mod 16) 16 ltac:(lia)); lia.
+      + apply orb_false_iff. split.
+        * apply negb_false_iff, Z.eqb_eq.
+          destruct Hbs as [Hbs|Hbs]; rewrite Hbs in *; destruct Hex as [Hex|Hex]; rewrite Hex in *;
+            Z.div_mod_to_equations; lia.
+        * apply Z.ltb_ge.
+          destruct Hbs as [Hbs|Hbs]; rewrite Hbs in *; destruct Hex as [Hex|Hex]; rewrite Hex in *;
+            Z.div_mod_to_equations; lia.
+    - assert (E2 : c_kind c = 2) by lia. rewrite E2. cbn [andb Z.eqb Pos.eqb]. split; [lia|].
+      split; [|reflexivity]. apply Z.ltb_ge. lia.
+  Qed.
+
+  Lemma total_app l1 l2 : total B (l1 ++ l2) = total B l1 + total B l2.
+  Proof. induction l1 as [|r l1 IH]; simpl; [reflexivity|]. rewrite IH. lia. Qed.
+  Lemma total_protect : forall Sr k, Forall (fun tp => 0 <= blen (snd tp) <= maxPlaintext) Sr ->
+    0 <= total B (protect_from B seal c k Sr).
+  Proof.
+    induction Sr as [|[t p] Sr IH]; intros k H; cbn [protect_from total r_actual]; [lia|].
+    inversion H as [|? ? H2 H3]; subst. cbn [snd] in H2.
+    destruct (wire_len_facts (blen p) H2) as [Hw _]. specialize (IH (k + 1) H3). lia.
+  Qed.
+
+  (* one genuine record at the head of the stream passes every check of readRecord / decrypt *)
+  Lemma recv_head t p seq acc rest trail : 0 <= blen p <= maxPlaintext -> 0 <= total B rest + trail ->
+    recv B open c seq acc
+      (mkRec t (c_vers c) (wire_len c (blen p)) (wire_len c (blen p)) (Some (seal seq t (c_vers c) p)) :: rest) trail =
+    (if t =? 23 then recv B open c (seq + 1) (acc ++ p) rest trail
+     else if t =? 21 then
+       match p with
+       | [lvl; a] => if a =? 0 then (acc, 1, seq + 1)
+                     else if lvl =? 1 then recv B open c (seq + 1) acc rest trail
+                     else if lvl =? 2 then (acc, 300 + a, seq + 1) else (acc, 110, seq + 1)
+       | _ => (acc, 110, seq + 1)
+       end
+     else if t =? 22 then (acc, 200, seq + 1) else (acc, 110, seq + 1)).
+  Proof.
+    intros Hp Ht. destruct (wire_len_facts (blen p) Hp) as [Hw [H2 H1]].
+    cbn [recv r_vers r_claim r_actual r_typ]. rewrite Z.eqb_refl. cbn [negb].
+    replace (wire_len c (blen p) >? maxCiphertext) with false by (symmetry; rewrite Z.gtb_ltb; apply Z.ltb_ge; lia).
+    replace (wire_len c (blen p) + total B rest + trail <? wire_len c (blen p)) with false by (symmetry; apply Z.ltb_ge; lia).
+    unfold decrypt, body_seen. cbn [r_claim r_actual r_body r_typ r_vers]. rewrite H2, H1, Z.eqb_refl, open_seal.
+    cbv zeta. replace (blen p >? maxPlaintext) with false by (symmetry; rewrite Z.gtb_ltb; apply Z.ltb_ge; lia).
+    reflexivity.
+  Qed.
+
+  Lemma recv_apps : forall (ws : list (list Z)) seq acc rest trail,
+    Forall (fun p => 0 <= blen p <= maxPlaintext) ws -> 0 <= total B rest + trail ->
+    recv B open c seq acc (protect_from B seal c seq (map (fun p : list Z => (typApp, p)) ws) ++ rest) trail =
+    recv B open c (seq + Z.of_nat (length ws)) (acc ++ concat ws) rest trail.
+  Proof.
+    induction ws as [|p ws IH]; intros seq acc rest trail Hws Ht.
+    - simpl. rewrite Z.add_0_r, app_nil_r. reflexivity.
+    - inversion Hws as [|? ? Hp Hws']; subst. cbn [map protect_from app].
+      assert (Hrest : 0 <= total B (protect_from B seal c (seq + 1) (map (fun p0 : list Z => (typApp, p0)) ws) ++ rest) + trail).
+      { rewrite total_app.
+        assert (0 <= total B (protect_from B seal c (seq + 1) (map (fun p0 : list Z => (typApp, p0)) ws))).
+        { apply total_protect. apply Forall_forall. intros [t q] Hin. apply in_map_iff in Hin.
+          destruct Hin as [q' [E Hin]]. inversion E; subst. rewrite Forall_forall in Hws'. apply Hws'. exact Hin. }
+        lia. }
+      rewrite (recv_head typApp p seq acc _ trail Hp Hrest).
+      unfold typApp. cbn [Z.eqb Pos.eqb]. rewrite IH by assumption. cbn [concat length].
+      rewrite app_assoc. f_equal; lia.
+  Qed.
+End Complete.
+
+Lemma concat_write_recs cf ws : concat (flat_map (write_recs cf) ws) = concat ws.
+Proof. induction ws as [|w l IH]; [reflexivity|]. simpl. rewrite concat_app, write_recs_concat, IH. reflexivity. Qed.
+
+(* the untouched stream of the executable model: everything is delivered, Read ends with io.EOF, the
+   sequence number is the number of records *)
+Theorem model_untampered : forall x, wf_C42 x = true -> cfg_ok (i_cfg x) = true ->
+  receive sbody sopen (i_cfg x) (orig_wire x) 0 =
+  (sent_bytes (i_writes x), 1, Z.of_nat (length (S_of x))).
+Proof.
+  intros x Hwf Hc. unfold wf_C42 in Hwf. apply andb_true_iff in Hwf. destruct Hwf as [Hwf _].
+  apply andb_true_iff in Hwf. destruct Hwf as [_ Hbytes].
+  pose proof (plain_records_ok (i_cfg x) (i_writes x) (i_close x) Hbytes) as Hok.
+  unfold receive, orig_wire, protect, S_of in *. unfold plain_records in *.
+  set (ws := flat_map (write_recs (i_cfg x)) (i_writes x)) in *.
+  apply Forall_app in Hok. destruct Hok as [Hws _].
+  assert (Hws' : Forall (fun p => 0 <= blen p <= maxPlaintext) ws).
+  { apply Forall_forall. intros p Hin. rewrite Forall_forall in Hws.
+    specialize (Hws (typApp, p) ltac:(apply in_map_iff; exists p; auto)). simpl in Hws. unfold blen in *. lia. }
+  assert (Hcat : concat ws = sent_bytes (i_writes x)).
+  { unfold ws, sent_bytes. apply concat_write_recs. }
+  assert (Hpf : forall k a b, protect_from sbody Sealed (i_cfg x) k (a ++ b) =
+                 protect_from sbody Sealed (i_cfg x) k a ++ protect_from sbody Sealed (i_cfg x) (k + Z.of_nat (length a)) b).
+  { intros k a. revert k. induction a as [|[t p] a IH]; intros k b; cbn [app protect_from length].
+    - rewrite Z.add_0_r. reflexivity.
+    - rewrite IH. replace (k + 1 + Z.of_nat (length a)) with (k + Z.of_nat (Datatypes.S (length a))) by lia. reflexivity. }
+  rewrite Hpf, app_length, map_length.
+  destruct (i_close x).
+  - rewrite (recv_apps sbody Sealed sopen (i_cfg x) sopen_seal Hc ws 0 [] _ 0 Hws').
+    + cbn [protect_from]. rewrite ?map_length.
+      rewrite (recv_head sbody Sealed sopen (i_cfg x) sopen_seal Hc).
+      * unfold typAlert. cbn [Z.eqb Pos.eqb]. rewrite Hcat. simpl app. repeat f_equal. simpl length. lia.
+      * unfold blen, maxPlaintext. simpl. lia.
+      * simpl. lia.
+    + cbn [protect_from]. rewrite ?map_length. cbn [total r_actual].
+      destruct (wire_len_facts sbody Sealed sopen (i_cfg x) sopen_seal Hc (blen [1; 0])) as [Hw _]; [unfold blen, maxPlaintext; simpl; lia|]. lia.
+  - cbn [protect_from]. rewrite (recv_apps sbody Sealed sopen (i_cfg x) sopen_seal Hc ws 0 [] [] 0 Hws' ltac:(simpl; lia)).
+    simpl recv. rewrite Hcat. simpl app. repeat f_equal. simpl length. lia.
+Qed.
+
+Lemma srecs_prefix_refl l : srecs_prefix l l = true.
+Proof. rewrite <- (firstn_all l) at 1. apply srecs_prefix_firstn. Qed.
+
+(* prop_C42 holds of the model on inputs without tampering *)
+Theorem prop_C42_of_model_untampered : forall i x,
+  dec_C42 i = Some x -> wf_C42 x = true -> cfg_ok (i_cfg x) = true -> i_script x = [] -> i_cut x < 0 ->
+  prop_C42 i (run_C42 i) = true /\ kf_C42 i = 0.
+Proof.
+  intros i x Hdec Hwf Hc Hs Hcut.
+  assert (Hw : tampered_wire x = (orig_wire x, 0)).
+  { unfold tampered_wire, apply_cut. rewrite Hs. simpl apply_script. apply Z.ltb_lt in Hcut. rewrite Hcut. reflexivity. }
+  assert (Hrel : relevant x = false).
+  { unfold relevant. rewrite Hw. unfold srecs_eqb. rewrite srecs_prefix_refl, Z.eqb_refl. destruct (i_close x); reflexivity. }
+  unfold run_C42, prop_C42, kf_C42, tail_dropped. rewrite Hdec, Hwf, Hw, Hrel, (model_untampered x Hwf Hc).
+  split; [|reflexivity]. cbn [andb]. rewrite Z.eqb_refl. unfold bytes_eqb. rewrite list_Z_eqb_refl.
+  replace (is_prefix (sent_bytes (i_writes x)) (sent_bytes (i_writes x))) with true; [reflexivity|].
+  symmetry. apply is_prefix_spec. exists []. rewrite app_nil_r. reflexivity.
+Qed.
+
 (* ---- witnesses ---- *)
 Definition hello_world : val := VL [VB [104; 101; 108; 108; 111]; VB [119; 111; 114; 108; 100]].
 Definition ex_taildrop : val :=
